@@ -319,6 +319,29 @@ def x1_x3(ctx):
                     '%s can return `%s` without having run the preprocessor\'s parser over the text: on that path an unterminated string or block comment or a stray backslash is '
                     'not reported as Error::Preprocess (it reaches the main parser, or the caller, unscanned) and the text is not cut into the segments the origin map is built from'
                     % (pp.loop_fn['name'], sq(oks_[0])[:40]))
+    # an arm that expands something AND copies source text behind it (the blanks after a macro usage) copies that text on every path: a
+    # `continue` / `return` between the expansion and the copy (a "nothing to emit" shortcut for a macro without body) drops the blanks,
+    # and the tokens on both sides of the usage are joined
+    for a_ in pp.arms:
+        if a_.event != 'Enter' or a_.body.get('k') != 'block':
+            continue
+        st_ = a_.body['stmts']
+        def _copies(n_):
+            return any(z.get('k') == 'mcall' and z['m'] == 'push' and sx.is_path(z['recv'], pp.out_var) and z['args'] and
+                       sx.strip_ref(z['args'][0]).get('k') == 'mcall' and sx.strip_ref(z['args'][0])['m'] == 'str' for z in sx.walk(n_))
+        def _expands(n_):
+            return any(sx.is_call(z) and z['f']['p'] in pp.fns and z['f']['p'] != pp.loop_fn['name'] and
+                       '(String,' in (pp.fns[z['f']['p']]['sig'].get('rets') or '').replace(' ', '') for z in sx.walk(n_))
+        ie_ = [i_ for i_, x_ in enumerate(st_) if _expands(x_)]
+        ic_ = [i_ for i_, x_ in enumerate(st_) if _copies(x_) and not _expands(x_)]
+        if not ie_ or not ic_ or ic_[-1] <= ie_[0]:
+            continue
+        r1.inst('copy-after-expansion:%s' % a_.key)
+        early_ = [z for x_ in st_[ie_[0]:ic_[-1]] for z in sx.walk_skip(x_, lambda q: q.get('k') == 'closure') if z.get('k') in ('continue', 'return', 'break')]
+        if early_:
+            r1.fail('%s:%s:early-exit-before-copy' % (CRATE, a_.key), pp.where(early_[0].get('l') or a_.line),
+                    '%s: the handler can leave (`%s`) after the expansion step and before the source text behind the usage (its trailing blanks) is copied: on that path — '
+                    'e.g. a macro without body — the blanks are dropped and the tokens around the usage are joined' % (a_.key, early_[0].get('k')))
     sites, stray = push_sites(pp)
     for n in stray:
         r1.fail('%s:push-not-statement' % CRATE, pp.where(n.get('l')), 'a push into the output that is not a plain statement (unmodelled, fail closed)')
